@@ -273,6 +273,9 @@ class UnitStore(object):
         """
         assert isinstance(from_unit, self._registry.Unit), 'from_unit must be a unit, not ' + str(from_unit)
         cf = self.convert(1 * from_unit, to_unit).magnitude
+        if isinstance(cf, sympy.Number):
+            # Symbolic coefficients of conversion rules cancelled out: return an ordinary number, as without rules
+            cf = float(cf)
         if isinstance(cf, numbers.Number) and math.isclose(cf, 1.0):
             return 1
         elif isinstance(cf, sympy.Mul) and 1.0 in cf.args:  # pragma: no cover
